@@ -127,13 +127,14 @@ fn run_labels(ops: &[FlagOp], note: &str) -> String {
     });
     let obs = match &res {
         Ok(Some(entries)) => {
-            let mut parts = vec![];
+            let mut labs: Vec<String> = vec![]; let mut ress: Vec<String> = vec![];
             let mut reported = false;
             for (m, e) in entries {
                 match e {
                     Ok((lab, back)) => {
-                        let b = match back { Ok(Some(v)) => format!("(IOk {})", v), Ok(None) => "IErr".to_string(), Err(_) => "IPanic".to_string() };
-                        parts.push(format!("IOk ({}, {})", coq_str(lab), b));
+                        for c in lab.chars() { labs.push((c as u32).to_string()); }
+                        labs.push("0".into());
+                        ress.push(match back { Ok(Some(v)) => format!("{}", v), Ok(None) => "(-1)".to_string(), Err(_) => "(-2)".to_string() });
                         // oracle: the label parses back to the mask
                         let good = matches!(back, Ok(Some(v)) if v == m);
                         if !good && !reported {
@@ -143,12 +144,12 @@ fn run_labels(ops: &[FlagOp], note: &str) -> String {
                         }
                     },
                     Err(p) => {
-                        parts.push("IPanic".to_string());
+                        labs.push("0".into()); ress.push("(-3)".to_string());
                         if !reported { reported = true; println!("ORACLE-FAIL\tmask_to_diff_label panicked on mask {:#04x}: {}\t{}", m, oneline(p), note); }
                     },
                 }
             }
-            format!("(IOk [{}])", parts.join("; "))
+            format!("(IOk ([{}], [{}]))", labs.join("; "), ress.join("; "))
         },
         Ok(None) => { if !t.invalid { println!("ORACLE-FAIL\tvalid difficulty flag definitions rejected\t{}", note); } "IErr".to_string() },
         Err(p) => { println!("ORACLE-FAIL\tpanic while applying difficulty flag definitions: {}\t{}", oneline(p), note); "IPanic".to_string() },
@@ -430,11 +431,12 @@ fn main() {
                     loop {
                         while *i < s.len() && s[*i] == ' ' { *i += 1; }
                         if *i >= s.len() { return None; }
-                        if s[*i] == ':' { cs.push(None); *i += 1; continue; }
-                        if s[*i] == ')' { if cs.len() > 0 && s[*i - 1] == ':' { cs.push(None); } *i += 1; break; }
-                        let a = read_arg(s, i)?; cs.push(Some(a));
+                        if s[*i] == ':' || s[*i] == ')' { cs.push(None); } else { let a = read_arg(s, i)?; cs.push(Some(a)); }
                         while *i < s.len() && s[*i] == ' ' { *i += 1; }
-                        if *i < s.len() && s[*i] == ':' { *i += 1; if *i < s.len() && s[*i] == ')' { cs.push(None); } }
+                        if *i >= s.len() { return None; }
+                        if s[*i] == ':' { *i += 1; continue; }
+                        if s[*i] == ')' { *i += 1; break; }
+                        return None;
                     }
                     Some(Arg::Sw(cs))
                 } else {
